@@ -31,7 +31,7 @@ REGISTRY = {
 REGISTRY["C08"] = dict(
     module="c08",
     level="other",
-    technique="static analysis: table extraction by straight-line abstract evaluation of the Lazy initialiser + sibling-table agreement; predicate-sensitive guard dominance over MIR for conversion sites",
+    technique="static analysis: table extraction by straight-line abstract evaluation of the Lazy initialiser + sibling-table agreement; predicate-sensitive guard dominance over MIR for conversion sites; dimensional direction of cancellation factors; predicate-sensitive 'built only under comparable()' and 'raw magnitudes only under equal units' analyses",
     claim=(
         "Structural clauses: (a) all 82 entries of UNIT_CONVERSION_TABLE, extracted statically from the initialiser, equal the CSS ratios and the table is "
         "reciprocal/transitive/closed; (b) Unit::kind, the table's row groups, comparable()'s decision structure (summarised per CFG path and evaluated over all 34x33 unit pairs), "
@@ -49,7 +49,7 @@ REGISTRY["C08"] = dict(
 REGISTRY["C01"] = dict(
     module="c01",
     level="other",
-    technique="static analysis: error-kind typestate over the resolved call graph; predicate-sensitive guard dominance; lexer-progress abstract interpretation of parser loops; reachability of explicit panic macros",
+    technique="static analysis: error-kind typestate over the resolved call graph; predicate-sensitive guard dominance; lexer-progress abstract interpretation of parser loops; reachability of explicit panic macros; exact reviewed inventory of panic-capable operations in the error path; predicate-sensitive guard analysis of unsigned subtractions",
     claim=(
         "Seven structural clauses, each a necessary condition of totality, decided for all sites of the current tree: (a) only Raw errors can reach SassError::raw(); "
         "(b) every unit conversion is guarded on every path; (c) each of the 84 loops of the parsers provably consumes input on every cycle (67), is driven by a finite std iterator (7) or is one of 10 hand-reviewed exceptions, and no loop has a forced cycle at end of input; "
@@ -119,7 +119,7 @@ REGISTRY["C09"] = dict(
 REGISTRY["C17"] = dict(
     module="c17",
     level="other",
-    technique="static analysis: must-depend guard facts at every construction of MediaQueryMergeResult::Empty/Unrepresentable; arm-action table extraction of merge_media_queries and visit_media_rule",
+    technique="static analysis: must-depend guard facts at every construction of MediaQueryMergeResult::Empty/Unrepresentable; arm-action table extraction of merge_media_queries and visit_media_rule; predicate valuations per result site of MediaQuery::merge compared with a transliterated dart-sass reference over the complete abstract domain (4608 cases)",
     claim=(
         "Decision-structure clauses: every Empty result of MediaQuery::merge is control-dependent on this_type == other_type, on exactly one query being negated and on the subset test; "
         "double negation with different types is Unrepresentable; merge_media_queries maps Empty/Unrepresentable/Success to skip/None/push over the cartesian product; a merged rule passes an enclosing @media only if all of its queries are merge sources (Iterator::all); merge_media_queries returns the list built from the merge results, never an input list; "
@@ -131,7 +131,7 @@ REGISTRY["C17"] = dict(
 REGISTRY["C05"] = dict(
     module="c05",
     level="other",
-    technique="static analysis: provenance rule over every mutation of the serializer's byte buffers (who-may-call + constant classification + byte-set path analysis of the copy loops), unsafe inventory, predicate-sensitive guard analysis of the charset/BOM decision, visibility-filter dominance",
+    technique="static analysis: provenance rule over every mutation of the serializer's byte buffers (who-may-call + constant classification + byte-set path analysis of the copy loops), unsafe inventory, predicate-sensitive guard analysis of the charset/BOM decision, visibility-filter dominance; evaluation of the escaping decision blocks over all 256 byte values; predicate valuations of is_ident's first-character test",
     claim=(
         "Encoding and visibility clauses: (a) every write to Serializer.buffer / the local quoting buffer is an ASCII constant, a whole str, fmt output or the in-order copy of a source byte, no cutting operation is ever applied, "
         "and in the two byte-copy loops a byte >= 0x80 is always copied unchanged with nothing interleaved (safety of the two from_utf8_unchecked); (b) the unsafe inventory is exactly the three reviewed blocks; "
@@ -167,7 +167,7 @@ REGISTRY["C06"] = dict(
 REGISTRY["C15"] = dict(
     module="c15",
     level="other",
-    technique="static analysis: extraction of the phf tables from the static's promoted constants and comparison with an independent CSS table; who-may-construct rule and clamp-provenance check for Color; predicate-sensitive guard analysis of visit_color",
+    technique="static analysis: extraction of the phf tables from the static's promoted constants and comparison with an independent CSS table; who-may-construct rule and clamp-provenance check for Color; predicate-sensitive guard analysis of visit_color; interval abstract interpretation of hue arithmetic up to hue_to_rgb; per-constructor reviewed callers; channel-rounding provenance",
     claim=(
         "Table and constructor clauses: (a) all 148 CSS named colours (independent table in spec/) are in name_to_rgba with alpha 0xFF, `transparent` is rgba(0,0,0,0), rgba_to_name is a right inverse; "
         "(b) Color's fields are private, struct literals occur only in new_rgba/new_hsla/new, the raw constructors are called only from the reviewed set, and from_rgba/from_rgba_fn/from_hwb/from_hsla clamp every parameter "
@@ -192,7 +192,7 @@ REGISTRY["C14"] = dict(
 REGISTRY["C12"] = dict(
     module="c12",
     level="other",
-    technique="static analysis: predicate-sensitive guard analysis of the member views (sibling agreement across the MapView interface), must-reach flow of show/hide lists, registry table agreement, guard/pairing rules for the module cache and the active-module set, must-pass-through of assert_public at namespaced constructions",
+    technique="static analysis: predicate-sensitive guard analysis of the member views (sibling agreement across the MapView interface), must-reach flow of show/hide lists, registry table agreement, guard/pairing rules for the module cache and the active-module set, must-pass-through of assert_public at namespaced constructions; classification of every definition reaching load_module's configuration argument; type-level facts about the name sets of @forward ... with",
     claim=(
         "Structural clauses: (a) Public/Limited/Prefixed member views forward get/remove/insert only under their predicate and list keys consistently; (b) @forward show/hide lists reach LimitedMapView on top of the prefixed view, and forwarded_map returns the map unwrapped only when there is no show list at all (an empty show list hides everything); "
         "(c) sass:math/meta/selector/color members equal their global aliases; (d) execute() evaluates only on a cache miss and registers the module, load_module brackets execute with the active-module set and errors on a loop; "
@@ -229,7 +229,7 @@ REGISTRY["C18"] = dict(
 REGISTRY["C03"] = dict(
     module="c03",
     level="other",
-    technique="static analysis: pairing / must-pass-through on non-Err CFG paths for discovered save-restore instances; who-may-write rule for the variable-slot cache; table extraction (precedence) and guard dominance (short-circuit, if(), binding order)",
+    technique="static analysis: pairing / must-pass-through on non-Err CFG paths for discovered save-restore instances; who-may-write rule for the variable-slot cache; table extraction (precedence) and guard dominance (short-circuit, if(), binding order); loop-exit reachability after a produced value; type-level iterator facts (Chain/Cycle); destructive-operation inventory on Arc-shared scope maps",
     claim=(
         "Structural discipline clauses: (a,b) every discovered temporary override of scopes, flags, env, content, configuration and import path (34 instances frozen from the pinned tree) is restored on every non-Err exit; "
         "(c) only the lookup/insert functions write Scopes.last_variable_index, every scope pop / variable removal resets it, and every insertion into a scope map first refreshes the cache to that (name, index), resets it, or targets index 0; (d) BinaryOp::precedence follows the Sass order, and/or evaluate the right operand only under the "
@@ -254,7 +254,7 @@ REGISTRY["C04"] = dict(
 REGISTRY["C10"] = dict(
     module="c10",
     level="other",
-    technique="static analysis: must-reach rule (a field must have an error-producing reader / a consulted map must have a writer), visibility-filter dominance shared with C05-d, no-effect-operation-on-temporary detector",
+    technique="static analysis: must-reach rule (a field must have an error-producing reader / a consulted map must have a writer), visibility-filter dominance shared with C05-d, no-effect-operation-on-temporary detector; loop totality (must-pass) of register_selector; sibling accessor agreement for specificity bounds; provenance of popped components in merge_final_combinators",
     claim=(
         "Six structural clauses only: (a) Extension/ExtendRule.is_optional must be read by a branch whose mandatory edge can produce an Err (`extending a missing target is an error unless !optional`); "
         "(b) placeholder selectors are filtered before anything is written (C05-d); (c) the media contexts consulted while extending are recorded by some writer, and `get_mut(k).replace(v)` on temporaries are reported (undecided); (d) register_selector records the rule under every simple selector and always descends into the inner list of a selector pseudo, independent of what the index already holds; (e) every min_specificity/max_specificity accessor reads and sums only its own bound, simple selectors carry the CSS weights, and pseudo-element vs pseudo-class weight is decided by `is_class`; (f) merge_final_combinators pushes a popped component back only onto the list it was popped from. "
